@@ -45,16 +45,18 @@ func call(name string, args ...ast.Expr) *ast.CallExpr {
 }
 
 var renames = map[string]map[string]string{
-	"sync":        {"Mutex": "Mutex"},
-	"sync/atomic": {"Bool": "AtomicBool", "Uint64": "AtomicUint64", "LoadPointer": "LoadPointer", "CompareAndSwapPointer": "CompareAndSwapPointer", "StorePointer": "StorePointer", "LoadUint64": "LoadUint64", "AddUint64": "AddUint64", "StoreUint64": "StoreUint64"},
-	"time":        {"AfterFunc": "AfterFunc", "Now": "Now", "Since": "Since"},
+	"sync": {"Mutex": "Mutex", "RWMutex": "RWMutex", "WaitGroup": "WaitGroup", "Once": "Once"},
+	"sync/atomic": {"Bool": "AtomicBool", "Uint64": "AtomicUint64", "Int64": "AtomicInt64", "Int32": "AtomicInt32", "Uint32": "AtomicUint32", "Pointer": "AtomicPointer",
+		"LoadPointer": "LoadPointer", "CompareAndSwapPointer": "CompareAndSwapPointer", "StorePointer": "StorePointer", "SwapPointer": "SwapPointer",
+		"LoadUint64": "LoadUint64", "AddUint64": "AddUint64", "StoreUint64": "StoreUint64", "CompareAndSwapUint64": "CompareAndSwapUint64"},
+	"time": {"AfterFunc": "AfterFunc", "Now": "Now", "Since": "Since", "Sleep": "Sleep", "After": "After"},
 }
 
 // unsupported selectors: their appearance in a rewritten file is a loud harness error
 var unsupported = map[string][]string{
-	"sync":        {"RWMutex", "WaitGroup", "Once", "Cond", "Map", "Pool"},
-	"sync/atomic": {"Int32", "Int64", "Uint32", "Pointer", "Value", "AddInt32", "AddInt64", "LoadInt32", "LoadInt64", "StoreInt32", "StoreInt64", "CompareAndSwapInt32", "CompareAndSwapInt64", "CompareAndSwapUint64", "SwapPointer"},
-	"time":        {"After", "NewTimer", "NewTicker", "Sleep", "Tick"},
+	"sync":        {"Cond", "Map", "Pool"},
+	"sync/atomic": {"Value", "AddInt32", "AddInt64", "LoadInt32", "LoadInt64", "StoreInt32", "StoreInt64", "CompareAndSwapInt32", "CompareAndSwapInt64"},
+	"time":        {"NewTimer", "NewTicker", "Tick"},
 }
 
 type spec struct {
